@@ -23,8 +23,8 @@ TECH = {
     'C10': 'ownership-flow (move provenance) + path-sensitive must-pass-through in the server loop (MIR)',
     'C11': 'lifetime-laundering detection + typed taint/escape analysis + who-may-write on the receive buffer (MIR)',
     'C12': 'sibling agreement of the three proxy generators (syn AST): shared parser/emitter, destructive-attribute rule, evaluated emitter truth table',
-    'C13': 'guard-based bounds engine (index/range sites, inductive cursors) + error-discipline, loop-progress and conservation rules over the parser MIR',
-    'C14': 'format-template analysis of Display impls (AST) vs parser literal/constructor tables (AST + MIR call graph)',
+    'C13': 'guard-based bounds engine (index/range sites, inductive cursors) + error-discipline, loop-progress and conservation rules over the parser MIR + abstract interpretation of the name scanners (byte-class / window-relative position domain) in lock-step with the DFA of the grammar rule',
+    'C14': 'format-template analysis of Display impls (AST) vs parser literal/constructor tables (AST + MIR call graph) + imported scanner-vs-grammar abstract interpretation (names)',
     'C15': 'conversion/rename pairing keyed by resolved accessors (MIR) on emitter syntax, type-table and keyword-table comparison, Ident-unraw lint (MIR)',
     'C16': 'trait-impl table extraction (MIR const bodies + promoted constants) vs mapping table; derive template and declaration-order rules (AST)',
     'C17': 'guard dominance of buffer growth by the limit test + const evaluation (MIR)',
